@@ -165,13 +165,21 @@ def worker(case):
                 stats["torn_writes"] = stats.get("torn_writes", 0) + 1
             snap = open(os.path.join(kd, "tgt.zck"), "rb").read()
             resumes = 0
+            sc_res, A_res, pA_res = sc, A, pA
+            if sc.get("A2"):
+                # the restart is given a DIFFERENT local source than the attempt that was interrupted (e.g. an older version found later)
+                A_res = core.unb64(sc["A2"])
+                pA_res = zckref.parse(A_res)
+                sc_res = dict(sc, A=sc["A2"])
+                open(os.path.join(kd, "A.zck"), "wb").write(A_res)
+                stats["restarts_with_a_different_source"] = stats.get("restarts_with_a_different_source", 0) + 1
             while True:
-                E, copied, already = c04.expected_fetch(pB, B, pA, snap, A)
+                E, copied, already = c04.expected_fetch(pB, B, pA_res, snap, A_res)
                 # partially written chunks at the kill: present on disk in part, not hashing
                 fault = None
                 if k2 and resumes == 0:
                     fault = (k2, -1)
-                r2 = core.run_zh(case["zh"], kd, script(sc, fault), None, cpu=60, name="resume%d" % resumes)
+                r2 = core.run_zh(case["zh"], kd, script(sc_res, fault), None, cpu=60, name="resume%d" % resumes)
                 stats["evaluations"] += 1
                 resumes += 1
                 if r2.timed_out and not r2.cpu_exceeded:
@@ -283,12 +291,16 @@ class C11(core.Check):
         for si in range(nsc + (1 if self.quick else 6)):
             comp = r.choice([0, 2])
             nch = r.choice([3, 5, 8])
-            pieces = [gen.content(r.choice(["random", "text"]), r.randrange(2, 60), r.random()) for _ in range(nch)]
+            pieces = [gen.content(r.choice(["random", "text", "zeros"]), r.randrange(2, 60), r.random()) for _ in range(nch)]
             big = si >= nsc
             if big:
                 # chunks larger than the library's 32 KiB scan / copy block: a cut can leave several full blocks of a partial chunk on disk
                 comp = 0 if si % 2 == 0 else 2
                 pieces = [gen.content("random", r.choice([40000, 70000, 100000]), r.random()) for _ in range(3)]
+                if comp == 0:
+                    # stored bytes that are all zero (blocks of a disk image) and stored bytes that begin with 32 KiB of zeros
+                    pieces[1] = bytes(r.choice([33000, 70000]))
+                    pieces.append(bytes(32768) + gen.content("random", 9000, r.random()))
             db = r.randbytes(r.choice([0, 0, 12]))
             B = zckref.make_file(pieces, comp_type=comp, dict_bytes=db, chunk_hash_type=r.randrange(4), hash_type=r.randrange(4))
             pB = zckref.parse(B)
@@ -296,6 +308,14 @@ class C11(core.Check):
             if si % 2 == 0:
                 ap = [p for p in pieces if r.random() < 0.4] + [r.randbytes(20)]
                 A = zckref.make_file(ap, comp_type=comp, dict_bytes=db, chunk_hash_type=pB.chunk_hash_type)
+            A2 = None
+            if si % 4 == 2:
+                # interleaved: the first source has every second chunk, the source given to the restart has the others (in file order)
+                A = zckref.make_file(pieces[1::2] + [r.randbytes(20)], comp_type=comp, dict_bytes=db, chunk_hash_type=pB.chunk_hash_type)
+                A2 = zckref.make_file(pieces[0::2] + [r.randbytes(25)], comp_type=comp, dict_bytes=db, chunk_hash_type=pB.chunk_hash_type)
+            elif si % 4 in (0, 1):
+                ap2 = [p for p in pieces if r.random() < 0.6] + [r.randbytes(25)]
+                A2 = zckref.make_file(ap2, comp_type=comp, dict_bytes=db, chunk_hash_type=pB.chunk_hash_type)
             T0 = None
             if si % 3 == 1:
                 d = bytearray(B)
@@ -304,7 +324,7 @@ class C11(core.Check):
                         a = pB.header_len + c["start"]
                         d[a:a + c["comp_len"]] = r.randbytes(c["comp_len"])
                 T0 = bytes(d)[: r.randrange(pB.header_len, len(B) + 1)]
-            sc = {"name": "s%d" % si, "A": core.b64(A) if A else None, "B": core.b64(B), "T0": core.b64(T0) if T0 is not None else None,
+            sc = {"name": "s%d" % si, "A": core.b64(A) if A else None, "A2": core.b64(A2) if A2 else None, "B": core.b64(B), "T0": core.b64(T0) if T0 is not None else None,
                   "limit": r.choice([1, 2, 3, -1, 255]), "style": r.choice([0, 1, 4, 32, 36]), "boundary": r.choice(["zckverifBOUNDARY", "a+b(c)"]),
                   "frag": ["n:1", "n:3", "all", "rand:%d:20" % r.randrange(1 << 20)][si % 4] if not big else r.choice(["n:16384", "n:5000"])}
             if "(" in sc["boundary"]:
